@@ -172,6 +172,10 @@ API_ATOMS = [
     [("net", "accept", 0.0, 2), ("fin",)],   # write fault on the refresh requests
     [("net", "accept", 0.0, 1), ("net", "accept", 0.0, 4), ("rst",)],
     [("cmd", "ac_on")], [("status_change",)],
+    # a console that stops answering while the link stays up: only the heartbeat notices
+    [("mute",), ("adv", 700.0)],
+    [("mute",), ("adv", 331.0), ("cmd", "ac_on")],
+    [("mute",), ("adv", 400.0), ("net", "refuse", 0.0), ("adv", 300.0)],
 ]
 
 
@@ -572,6 +576,9 @@ def run_api(case):
             elif o == "sub_raise":
                 ac.subscribe(raising)
                 zone.subscribe(raising)
+            elif o == "mute":
+                w.console.knobs.answer_heartbeat = lambda n, t: None
+                log.add("SCRIPT.console_mute")
             elif c is None:
                 continue
             elif o == "fin":
@@ -590,6 +597,7 @@ def run_api(case):
                                                    if k == "NET.connect_attempt"][-2:] + [0.0])
         net.script.clear()
         net.default = ("accept", 0.0)
+        w.console.knobs.answer_heartbeat = None
         for c in net.open_conns():
             c.fail_write_at = None
         log.add("ORACLE.start")
